@@ -19,10 +19,10 @@ func init() {
 			Assumptions: []string{"recover() semantics of the Go runtime", "panics on other goroutines are out of scope (none are started: checked)"},
 			Trusted:     []string{"go/packages", "go/types", "go/ssa"},
 			RuleDoc: map[string]string{
-				"R1.recover": "deferred closure with direct recover() storing a Panic-kind error; no go statements",
-				"R2.kinds":   "error kind per failing site; kind constants and texts distinct; IsErrorOfType shape; Generate's error kinds",
+				"R1.recover":  "deferred closure with direct recover() storing a Panic-kind error; no go statements",
+				"R2.kinds":    "error kind per failing site; kind constants and texts distinct; IsErrorOfType shape; Generate's error kinds",
 				"R3.nosilent": "error results tested at once; non-nil edge reaches only non-nil returns; success only after both loops completed",
-				"R4.nosign":  "no AddCertsToAgent after a failed Sign",
+				"R4.nosign":   "no AddCertsToAgent after a failed Sign",
 				"R5.agentkey": "agent.List/Remove/Add errors in agent/ssh are tested and returned",
 			},
 		},
@@ -326,6 +326,16 @@ func runC04(c *Ctx) {
 				c.Check(ok, "R3.nosilent", "Run|failed "+name+" => non-nil error", w.Pos(r.Pos()), "certainly non-nil", "Run can return nil although "+name+" failed")
 			}
 		}
+		// the non-nil edge ends the run: from every block where the error is known non-nil only returns follow
+		okEnd := true
+		for _, b := range run.Blocks {
+			if n, k := f.KnownNil(b, ev); k && !n {
+				if !leadsOnlyToReturns(b, func(x *ssa.BasicBlock) bool { n2, k2 := f.KnownNil(x, ev); return k2 && !n2 }) {
+					okEnd = false
+				}
+			}
+		}
+		c.Check(okEnd, "R3.nosilent", "Run|failed "+name+" ends the run", w.Pos(call.Pos()), "the err != nil edge reaches only returns", "after "+name+" failed the run can go on (and may report success)")
 		// tested at once: the first branch after the call that is dominated by it tests this error
 		if has && u.Tested {
 			okOnce := true
